@@ -809,9 +809,10 @@ func c04InCore(l []*c04Item, ctx int) bool {
 				}
 			}
 		case c04KFor:
-			// the head mentions no name the body declares lexically; var names of the head differ from the lexical ones
+			// the body declares lexically no name the head declares (let / const / var); var names of the head differ
+			// from the lexical ones
 			if ctx != 0 || !c04InCore(it.a, 0) || !c04InCore(it.b, 0) ||
-				c04Intersects(c04AllNames(it.a), c04LexNames(it.b)) ||
+				c04Intersects(c04LexNames(it.a), c04LexNames(it.b)) ||
 				c04Intersects(c04VarNames(it.a), append(c04LexNames(it.a), c04LexNames(it.b)...)) {
 				return false
 			}
